@@ -135,6 +135,32 @@ func init() {
 				}
 			}})
 		}
+		// small ciphertexts whose only / second leaf is negated and matched by
+		// the key: every header element of the negated wire is reached by the
+		// length-prefix-aware rewrites
+		for pi, ptxt := range []string{"not e: 5", "c: 3 and not e: 5", "not e: 5 or c: 3"} {
+			var pn tkn20.Policy
+			if err := pn.FromString(ptxt); err != nil {
+				panic(err)
+			}
+			var an tkn20.Attributes
+			an.FromMap(map[string]string{"c": "3", "e": "6"})
+			akn, err := msk.KeyGen(lib.NewRng("c10/tkn20", 20+pi), an)
+			if err != nil {
+				panic(err)
+			}
+			ctn, err := pk.Encrypt(lib.NewRng("c10/tkn20", 30+pi), pn, []byte("message"))
+			if err != nil {
+				panic(err)
+			}
+			if _, err := akn.Decrypt(ctn); err != nil {
+				panic("harness: negated-leaf ciphertext does not decrypt: " + err.Error())
+			}
+			reg("ABE", entry{name: "tkn20.Decrypt(negated-leaf)", seeds: [][]byte{ctn}, max: 600, f: func(b []byte) {
+				_, _ = akn.Decrypt(b)
+				_ = an.CouldDecrypt(b)
+			}})
+		}
 		pols := [][]byte{
 			[]byte("(country: fr or country: de) and not (level: low)"), []byte("a:b"), []byte("not not a:b"), []byte("(a:b"), []byte("a:b)"),
 			[]byte("a: b and"), []byte("and"), []byte("not"), []byte("()"), []byte("a:"), []byte(":b"), []byte("a:b or (c:d and (e:f or not (g:h)))"),
